@@ -1,7 +1,6 @@
 // C19 dynamic harness for pkg/adapters/gear: the real middleware on a real gear router, in-process.  gear runs
-// middlewares one after the other (a middleware cannot wrap the handler), so the adapter's body is bracketed by a
-// harness middleware that marks when it returned: the reported trace is the body's own activation, and probe notes
-// on stderr that the handler ran afterwards.
+// middlewares one after the other until one returns an error or ends the context (a middleware cannot wrap the
+// handler): the handler runs after the adapter's body has returned and its deferred Exit has run.
 package main
 
 import (
@@ -22,7 +21,7 @@ func main() {
 	probe.Init()
 	for _, cs := range probe.Plan() {
 		custom, sc := cs.Custom, cs.Sc
-		r := probe.New(key, sc, true)
+		r := probe.New(key, sc, false) // the handler's error goes to gear, not back to the middleware
 		opts := []sgear.Option{sgear.WithResourceExtractor(func(*gear.Context) string { return r.Res })}
 		if custom {
 			opts = append(opts, sgear.WithBlockFallback(func(ctx *gear.Context) error {
@@ -34,10 +33,7 @@ func main() {
 		app := gear.New()
 		app.Set(gear.SetLogger, log.New(io.Discard, "", 0))
 		router := gear.NewRouter()
-		router.Use(func(ctx *gear.Context) error {
-			defer r.Returned()
-			return mw(ctx)
-		})
+		router.Use(mw)
 		router.Handle("GET", "/x", func(ctx *gear.Context) error {
 			if err := r.InHandler(); err != nil {
 				return err
